@@ -5,17 +5,19 @@ VARIABLES sc, phase
 Scales == {<<<<1, 2>>, <<2, 1>>>>, <<<<2, 1>>, <<4, 1>>>>, <<<<1, 1>>, <<1, 2>>>>, <<<<4, 1>>, <<4, 1>>>>}
 Offsets == {<<0, 0>>, <<1, -1>>, <<-1, 1>>}
 Rows == {<<1, 1>>, <<1, -2>>, <<0, 2>>}
-Kinds == {<<-1, -1>>, <<-1, INF>>, <<-INF, 2>>, <<-1, 2>>}          \* equality, lower, upper, two-sided
+Kinds == {<<-1, -1>>, <<-1, INF>>, <<-INF, 2>>, <<-1, 2>>, <<32, 32>>}          \* equality, lower, upper, two-sided, narrow
+\* (narrow: with nar = 1 the row <<32, 32>> stands for the genuine range 32 <= a.x <= 32 + 2^-12, not an equality)
 Points == {<<0, 0>>, <<1, -1>>, <<-2, 1>>}
 Init == /\ \E s \in Scales : \E o \in Offsets : \E fs \in {<<1, 2>>, <<2, 1>>} : \E bnd \in {"finite", "mixinf", "none"} :        \* "none": no variable bounds and no non-linear constraints at all
            \E a \in Rows : \E k \in Kinds : \E pt \in {"abs", "rel"} : \E x \in Points :
-           \E which \in {"all", "vars", "obj", "con", "offs", "scal"} : \E fail \in BOOLEAN :
+           \E which \in {"all", "vars", "obj", "con", "offs", "scal"} : \E fail \in BOOLEAN : \E nar \in {0, 1} :
+             /\ ((nar = 1) <=> (k = <<32, 32>>))
              \* (offs / scal: a variable transform with offsets / scales only)
              /\ (pt = "rel" => bnd = "finite")
              /\ (bnd = "none" => which \in {"all", "vars", "offs"} /\ ~fail)
              /\ (which # "all" => o = <<1, -1>> /\ fs = <<1, 2>> /\ a = <<1, -2>>)       \* keep the single-transform families small
              /\ (fail => which \in {"all", "vars"} /\ a = <<1, 1>> /\ x = <<1, -1>>)
-             /\ sc = [s |-> s, o |-> o, fs |-> fs, bnd |-> bnd, a |-> a, l |-> k[1], u |-> k[2], ptype |-> pt, x |-> x, which |-> which, fail |-> fail,
+             /\ sc = [s |-> s, o |-> o, fs |-> fs, bnd |-> bnd, a |-> a, l |-> k[1], u |-> k[2], ptype |-> pt, x |-> x, which |-> which, fail |-> fail, nar |-> nar,
                       lb |-> IF bnd = "finite" THEN <<-2, -2>> ELSE IF bnd = "none" THEN <<-INF, -INF>> ELSE <<-INF, -2>>,
                       ub |-> IF bnd = "finite" THEN <<2, 2>> ELSE IF bnd = "none" THEN <<INF, INF>> ELSE <<2, INF>>]
         /\ phase = "init"
